@@ -262,8 +262,16 @@ def encryption_info(rng, variant, size_hint=None):
 PKG_SIZES = [0, 1, 8, 63, 64, 65, 4095, 4096, 4097, 8192]
 
 def encrypted_ooxml(rng, version=None, pkg_size=None, info_variant=None, info_big=None, dataspaces=None,
-                    extra=None, shuffle=True, shuffle_dir=True, header_difat=109, pad=None, extra_free=None):
+                    extra=None, shuffle=True, shuffle_dir=True, header_difat=109, pad=None, extra_free=None, recase=None):
     version = version or rng.choice([3, 4])
+    # CFB-1: compound-file names compare up to case (MS-CFB 2.6.4): a writer that upper-cases its stream
+    # names still wrote an encrypted package
+    recase = (rng.random() < 0.3) if recase is None else recase
+    def spell(n):
+        if not recase:
+            return n
+        k = rng.random()
+        return n.upper() if k < 0.5 else n.lower() if k < 0.7 else "".join(ch.swapcase() if rng.random() < 0.5 else ch for ch in n)
     if pkg_size is None:
         pkg_size = rng.choice(PKG_SIZES + [rng.randrange(0, 20000), rng.randrange(20000, 120000)])
     info_variant = info_variant or rng.choice(["standard", "agile", "extensible", "garbage"])
@@ -271,7 +279,7 @@ def encrypted_ooxml(rng, version=None, pkg_size=None, info_variant=None, info_bi
     dataspaces = rng.random() < 0.7 if dataspaces is None else dataspaces
     pad = (rnd(rng, rng.randrange(1, 30)) if rng.random() < 0.3 else b"") if pad is None else pad
     info = encryption_info(rng, info_variant, 4096 + rng.randrange(0, 3000) if info_big else None)
-    ents = [Entry("EncryptionInfo", 2, info), Entry("EncryptedPackage", 2, rnd(rng, pkg_size), pad=pad)]
+    ents = [Entry(spell("EncryptionInfo"), 2, info), Entry(spell("EncryptedPackage"), 2, rnd(rng, pkg_size), pad=pad)]
     if dataspaces:
         ds = len(ents); ents.append(Entry("\x06DataSpaces", 1))
         ents.append(Entry("Version", 2, rnd(rng, 76), parent=ds))
@@ -283,8 +291,8 @@ def encrypted_ooxml(rng, version=None, pkg_size=None, info_variant=None, info_bi
         ents.append(Entry("\x06Primary", 2, rnd(rng, 200), parent=st))
     for k in range(rng.randrange(0, 3) if extra is None else extra):
         nm = rng.choice(["\x05SummaryInformation", "\x05DocumentSummaryInformation", "Extra%d" % k,
-                         "encryptedpackage", "EncryptedPackag", "EncryptedPackageX", "ENCRYPTEDPACKAGE"])
-        if nm not in [e.name for e in ents]:
+                         "EncryptedPackag", "EncryptedPackageX", "EncryptédPackage"])
+        if nm.upper() not in [e.name.upper() for e in ents]:
             ents.append(Entry(nm, 2, rnd(rng, rng.choice([0, 10, 300, 5000]))))
     extra_free = (rng.randrange(0, 4) if rng.random() < 0.3 else 0) if extra_free is None else extra_free
     data, chain = cfb_build(ents, rng, version=version, shuffle=shuffle, shuffle_dir=shuffle_dir,
